@@ -25,6 +25,11 @@ def run(ctx):
     td, nd = h1common.run_h1srv(ctx, drv, deny_cases, ctx.sub("traces_deny"), idle="inloop", cuts="whole,rand1x3", extra=["-deny"])
     traces += td
     ncases += nd
+    # a client that really waits for "100 Continue" before it sends the body (both body modes): the server must
+    # send the interim response before it reads on (a read that blocks on the withheld body first is rejected)
+    tw, nw = h1common.run_h1srv(ctx, drv, deny_cases, ctx.sub("traces_wait100"), idle="inloop", cuts="whole,rand1x3", extra=["-wait100"])
+    traces += tw
+    ncases += nw
     # option DisableKeepalive: the first request is answered and the connection closed; pipelined followers are
     # never parsed (every 3rd script; all of them in the thorough tier)
     nk_cases = os.path.join(ctx.scratch, "nokeep.ndjson")
